@@ -1,45 +1,95 @@
 """What MANIFEST.json claims.  An obligation is registered only once it finishes reliably on the unchanged tree."""
-TRUST = ('rustc/Kani/CBMC/z3; the model prelude (kani_model/prelude, validated natively against the real containers); '
-         'hashes, PoW, MMR verification as uninterpreted functions; the extractor (a wrong extraction is a build failure, exit 2)')
+TRUST = ('rustc / Kani 0.68 / CBMC 6.11 (array field sensitivity switched off, see DESIGN.md 11.2) / z3; the model prelude (kani_model/prelude); '
+         'hashes, PoW, MMR verification, Golomb-coded-set matching as uninterpreted functions; RocksDB contract (atomic batches, ordered iteration) in '
+         'the store models; the extractor (a wrong or failed extraction is a build failure, exit 2, never a pass)')
+KM = 'Kani/CBMC bounded model checking (SAT) of real source text extracted from /repo on every run, compiled against model types'
+KR = 'Kani/CBMC bounded model checking (SAT) of the real crate with real 256-bit types (in-crate harness on a scratch copy)'
+MM = 'z3 simple-path queries (must-precede / must-not-follow) on the rustc MIR control-flow graph of the real handlers'
+
+
+def c(engines, text, ref, technique):
+    return {'engines': engines, 'text': text, 'design_ref': 'DESIGN.md section 4 / 11, ' + ref, 'note': TRUST, 'technique': technique}
+
+
 CLAIMED = {
-    'C11': {
-        'engines': ['K-model'],
-        'text': 'bounded model checking of the real PeerState transition code: one arbitrary event from an ARBITRARY state (inductive step, '
-                'so event sequences of any length), checked against the documented transition table and frame conditions; '
-                'multi-peer interleavings and the actual network disconnect are outside the claim',
-        'design_ref': 'DESIGN.md section 4, C11',
-        'note': TRUST,
-        'technique': 'Kani/CBMC symbolic execution of extracted real source over model types (SAT)',
-    },
+    'C01': c(['K-model', 'M'],
+             'bounded model checking: the real text of check_if_response_is_matched, check_continuous_headers, is_parent_of, patched_is_valid and '
+             'verify_mmr_proof against independent declarative specifications for every input within the bounds (<=4/5 headers, <=3/4 sampled '
+             'difficulties, last-N<=2/3); z3 path queries on the MIR of both handlers: every write of trusted state is dominated by the Ok edge of every '
+             'check and follows no Err edge. Crypto uninterpreted; larger responses and multi-peer interplay outside the claim',
+             'C01', KM + ' + ' + MM),
+    'C02': c(['K-model', 'M'],
+             'bounded model checking: the three handlers store / mark fetched / index only behind request match, last-hash, PoW, MMR, Merkle-root and '
+             'body-commitment checks (MIR path queries, all data havoc; every filtered block examined); the SendBlock arm as real text over a model of '
+             'ckb-types Block/BlockView; request-match predicates, verify_extra_hash, add_block against specifications. RPC read paths outside the claim',
+             'C02', MM + ' + ' + KM),
+    'C03': c(['K-model'],
+             'bounded model checking of the INDEX-WRITER STEP only: one Storage::filter_block call on an arbitrary small block yields exactly the '
+             'ground-truth index delta; the key encoding is injective and order-preserving. That sync delivers every block, restarts, interleavings, '
+             'rollback and add_fetched_tx are outside the claim', 'C03', KM),
+    'C04': c(['K-model', 'M'],
+             'bounded model checking of the fork-switch DECISION and BOOKKEEPING step (commit_prove_state with an ordered log of every effect, '
+             're-basing of proof requests, gating of the long-fork abort). Whether rollback_to_block restores the index, and liveness after the switch, '
+             'are declined', 'C04', KM + ' + ' + MM),
+    'C05': c(['K-model', 'K-real'],
+             'bounded model checking of per-check COMPLETENESS: the answer an honest RFC-44 prover builds is accepted by the shape check, legal '
+             'difficulty histories by the difficulty checks, documented events by the state machine. One recorded known finding (KF-1). Convergence '
+             '(liveness over unbounded multi-peer histories) is declined', 'C05', KM + ' + ' + KR),
+    'C06': c(['K-model'],
+             'bounded model checking of the real text of BlockFiltersProcess::execute (ground truth = arbitrary true filter-hash array; accepted prefix '
+             'authentic, chained from the right parent, recorded hashes at matching indices) and of update_latest_block_filter_hashes. GCS matching and '
+             'the hash uninterpreted; attribution of the DOWNLOADED block to the filter height is not decided (outside the claim, see DESIGN 11)',
+             'C06', KM),
+    'C07': c(['K-model'],
+             'bounded model checking of the real text of finalize_check_points (one tick from an arbitrary state; one agreeing quorum set on every '
+             'newly final value; range starts at last+1; index strictly increases; contradicting peers banned), required_peers_count and '
+             'add_check_points. Tick / message orders across time are covered only as the single inductive step', 'C07', KM),
+    'C08': c(['K-model', 'M'],
+             'bounded model checking of the WRITE-BOUNDARY step of individual operations: a symbolic crash counter cuts set_scripts and block arrival '
+             'after any number of write operations and the surviving store is checked against a recoverability invariant; MIR order query for the '
+             'first-run initialisation. Two recorded known findings (KF-2, KF-3). Restart-and-converge over the real RocksDB is declined', 'C08', KM + ' + ' + MM),
+    'C09': c(['K-model', 'M'],
+             'bounded model checking of the real text of Storage::update_filter_scripts over a sorted key/value store model (documented replace / upsert / '
+             'remove; pending records discarded; MIN_FILTERED below every kept script), update_block_number, and the lock discipline of set_scripts on MIR. '
+             'End-to-end indexed result and interleaving with a filter batch (C17) outside the claim', 'C09', KM + ' + ' + MM),
+    'C10': c(['K-model', 'K-real', 'M'],
+             'bounded model checking: no reachable panic (overflow, index, slice range, unwrap/expect, explicit panic!, panicking numext operators) in the '
+             'peer-driven kernels of the four protocols, within each harness bound; the overflow guard dominates every use of total_difficulty(); the only '
+             'explicit panic of the proof handler is behind the long-fork flag. molecule decoding, tentacle, RocksDB, CKB-VM and unlisted handler bodies '
+             'outside the claim', 'C10', KM + ' + ' + KR + ' + ' + MM),
+    'C11': c(['K-model'],
+             'bounded model checking of the real PeerState transition code: one arbitrary event from an ARBITRARY state (inductive step, so event sequences '
+             'of any length) against the documented transition table and frame conditions; multi-peer interleavings and the network disconnect outside',
+             'C11', KM),
+    'C12': c(['K-model'],
+             'bounded model checking of the real text of SendLastStateProcess::execute, update_prove_state_to_child, commit_prove_state and new_child over '
+             'models of Storage/Peers with an ordered log of every effect: tip stored only with strictly greater, truthful total difficulty of a linked '
+             'child / proven header. Restart through RocksDB and multi-peer sequences outside', 'C12', KM),
+    'C14': c(['K-real'],
+             'bounded model checking on the REAL functions and 256-bit numext arithmetic: completeness for legal histories (narrow operands), soundness '
+             '(exact within one epoch / across one switch, tau envelope otherwise), no abort for arbitrary peer-supplied numbers; <=3 epoch switches',
+             'C14', KR),
+    'C15': c(['K-model'],
+             'bounded model checking of the real text of sampling.rs (narrowed widths, libm pow/log as arbitrary values in their documented range) and of '
+             'build_prove_request_content: well-formedness of every request. "At least as many samples as the FlyClient bound requires" is declined '
+             '(no bit-precise libm in the solver)', 'C15', KM),
+    'C16': c(['K-model', 'M'],
+             'bounded model checking of the fetch bookkeeping (one arbitrary operation from an arbitrary table state) and of the status decision of '
+             'fetch_header / fetch_transaction; store only behind the proof checks (MIR, shared with C02). (transaction, block) pairing after a fork outside',
+             'C16', KM + ' + ' + MM),
+    'C18': c(['K-model', 'M'],
+             'bounded model checking of the real text of PendingTxs (one arbitrary operation from an arbitrary pool state) and "push only on the Ok edge of '
+             'verify_tx" on MIR. Acceptance only of verifiable transactions (RocksDB resolution, CKB-VM) is declined', 'C18', KM + ' + ' + MM),
 }
-CLAIMED['C01'] = {
-    'engines': ['K-model', 'M'],
-    'text': 'bounded model checking: (K-model) the real text of check_if_response_is_matched, check_continuous_headers, is_parent_of, '
-            'patched_is_valid and verify_mmr_proof against independent declarative specifications for all inputs within the bounds; '
-            '(M) z3 path queries on the MIR of both handlers showing that every write of trusted state is dominated by the Ok edge of every check '
-            'and follows no Err edge. Crypto (blake2b, PoW, MMR crate) is uninterpreted; responses with more than 5 headers and '
-            'multi-peer interplay are outside the claim',
-    'design_ref': 'DESIGN.md section 4, C01', 'note': TRUST,
-    'technique': 'Kani/CBMC (SAT) on extracted real source + z3 simple-path queries on rustc MIR',
+NOT_APPLICABLE = {
+    'C13': 'pagination, ordering, filters, grouping and the capacity sum live in closures over RocksDB snapshot iterators (FFI): not encodable by Kani/CBMC or a '
+           'MIR path query within reach; the one encodable ingredient (byte order of index keys = numeric order, injectivity, disjoint key spaces) is decided '
+           'under C03 (O3.3) and does not by itself decide this property',
+    'C17': 'concurrency: Kani/CBMC does not model Rust threads and no concurrent solver-based engine is available in this sandbox; only lock-discipline facts '
+           '(writes under the matched-blocks write lock: C04 O4.1, C06 O6.1, C09 O9.3, C02 O2.6) are decided, which is not the property',
 }
-CLAIMED['C02'] = {
-    'engines': ['K-model', 'M'],
-    'text': 'bounded model checking: (M) the three handlers store / mark fetched / index only behind request match, last-hash, PoW, MMR, '
-            'Merkle-root and body-commitment checks (must-precede / must-not-follow on MIR, all data havoc); (K-model) the request-match '
-            'predicates, verify_extra_hash and add_block against their specifications. Crypto uninterpreted; RPC read paths outside the claim',
-    'design_ref': 'DESIGN.md section 4, C02', 'note': TRUST,
-    'technique': 'z3 simple-path queries on rustc MIR + Kani/CBMC (SAT) on extracted real source',
-}
-CLAIMED['C12'] = {
-    'engines': ['K-model'],
-    'text': 'bounded model checking of the real text of SendLastStateProcess::execute, update_prove_state_to_child, commit_prove_state and '
-            'ProveState::new_child over models of Storage/Peers with an ordered ghost log of every effect: the tip is stored only with strictly '
-            'greater, truthful total difficulty of a linked child / a proven header. Restart through RocksDB and multi-peer sequences are outside',
-    'design_ref': 'DESIGN.md section 4, C12', 'note': TRUST,
-    'technique': 'Kani/CBMC symbolic execution of extracted real source over model types (SAT)',
-}
-_PENDING = 'check not yet registered in this revision (being built; see DESIGN.md section 4 for the planned obligations)'
-NOT_APPLICABLE = {p: _PENDING for p in ['C03', 'C04', 'C05', 'C06', 'C07', 'C08', 'C09', 'C10', 'C13',
-                                        'C14', 'C15', 'C16', 'C18']}
-NOT_APPLICABLE['C17'] = ('concurrency: Kani/CBMC does not model Rust threads and no concurrent solver-based engine is available in this '
-                         'sandbox; only lock-discipline facts are decided (under C09/C04), which is not the property')
+# properties whose check is not (yet) registered because it does not finish reliably within the quick budget are moved here by hand
+PENDING = {}
+for p in PENDING:
+    CLAIMED.pop(p, None)
+    NOT_APPLICABLE[p] = PENDING[p]
